@@ -146,6 +146,20 @@ JSON_CONFUSION = [None, True, False, 0, 1, -3, gen.fl(0), gen.fl(2.5), "", "a", 
                   {"m": []}, {"m": [["a", 1]]}, {"l": [{"m": [["a", 1]]}]}]
 
 
+def dedupe_doc(doc):
+    """a Python dict has unique keys: keep the last entry of duplicate keys, at every level"""
+    if isinstance(doc, dict):
+        if "m" in doc:
+            out = []
+            for k, v in doc["m"]:
+                key = json.dumps(gen.norm_key(k) if not isinstance(k, (dict, list)) else k, sort_keys=True, default=str)
+                out = [kv for kv in out if kv[2] != key] + [[k, dedupe_doc(v), key]]
+            return {"m": [[k, v] for k, v, _ in out]}
+        if "l" in doc:
+            return {"l": [dedupe_doc(x) for x in doc["l"]]}
+    return doc
+
+
 def corrupt_doc(rng, doc):
     """single-point corruption of a JSON document (wire form)"""
     if isinstance(doc, dict):
@@ -169,7 +183,8 @@ def corrupt_doc(rng, doc):
             elif r < 0.75:
                 kvs.pop(rng.randrange(len(kvs)))       # missing key
             elif r < 0.9:
-                kvs.append([rng.choice(["zz_extra", "a", "b"]), rng.choice(JSON_CONFUSION)])   # extra key
+                k = rng.choice(["zz_extra", "a", "b"])
+                kvs = [kv for kv in kvs if kv[0] != k] + [[k, rng.choice(JSON_CONFUSION)]]   # extra / replaced key
             else:
                 i = rng.randrange(len(kvs))
                 kvs[i][1] = None
@@ -206,6 +221,7 @@ def gen_cases(rng, tier, n_classes, lossy=0.2):
             doc = {"m": [[k, to_doc(dict((n, f) for n, f in cls["fields"]).get(k), v)] for k, v in kw]}
             docs = [("image", doc)] + [("corrupt", corrupt_doc(rng, doc)) for _ in range(4)]
             for tag, d in docs:
+                d = dedupe_doc(d)
                 cases.append({"suite": "serde", "mode": "deser", "stream": tag, "cls": cls, "doc": d,
                               "opts": rng.choice(opts_list), "re": gen.re_table(cls, d)})
         cases.append({"suite": "serde", "mode": "deser", "stream": "non-object", "cls": cls,
@@ -278,7 +294,10 @@ def run_impl(case):
                 res["back"] = {"err": C.err_name(e), "msg": str(e)[:200]}
                 res["eq"] = False
         else:
-            doc = dump.load_value(case["doc"], ctx)
+            try:
+                doc = dump.load_value(case["doc"], ctx)
+            except TypeError as e:    # e.g. a list as a dict key: not a Python document at all
+                return {"unbuildable": f"document: {e}"}
             before = json.dumps(dump.dump_value(doc, ctx), sort_keys=True)
             try:
                 y = Deserializer(cls).deserialize(doc, keep_undefined=ku)
@@ -351,8 +370,20 @@ def describe(case, impl, model):
             "impl": {k: impl.get(k) for k in ("ser", "back", "deser", "eq")}}
 
 
+def drop_none_attrs(j):
+    """an attribute holding None and an absent attribute are observationally the same
+    (field reads, ==); deserialization treats a null like an absent key"""
+    if isinstance(j, list):
+        return [drop_none_attrs(x) for x in j]
+    if isinstance(j, dict):
+        if "o" in j:
+            return {"o": [j["o"][0], [[k, drop_none_attrs(v)] for k, v in j["o"][1] if v is not None]]}
+        return {k: drop_none_attrs(v) for k, v in j.items()}
+    return j
+
+
 def _same(a, b):
-    return dump.canon(a) == dump.canon(b)
+    return dump.canon(drop_none_attrs(a)) == dump.canon(drop_none_attrs(b))
 
 
 LISTY = ("seqOf", "seqPos", "seqAny", "setOf", "setAny", "tupleOf", "tuplePos")
@@ -422,9 +453,55 @@ def in_model_scope(d):
     return True
 
 
+def offpath_inline(d, on_path=True):
+    """an inline StructureReference reached through anything but (class field | Array | Set): it is
+    deserialized without a sub-mapper, which changes how a null inside it is treated"""
+    if isinstance(d, dict) and "k" in d:
+        k = d["k"]
+        if k == "struct":
+            if d.get("inline") and not on_path:
+                return True
+            return any(offpath_inline(fd, True) for _, fd in d["fields"])
+        if k in ("seqOf", "setOf"):
+            return offpath_inline(d["item"], on_path)
+        return any(offpath_inline(x, False) for x in list(d.values()))
+    if isinstance(d, list):
+        return any(offpath_inline(x, on_path) for x in d)
+    return False
+
+
+def crosstype_duplicates(doc):
+    """an array holding values that are == but of different JSON type (true / 1 / 1.0): as a Python set
+    they collapse before the constructor can see them, so 'the set this array denotes' is ambiguous"""
+    if isinstance(doc, dict):
+        if "l" in doc:
+            keys = {}
+            for x in doc["l"]:
+                if x is None or isinstance(x, (bool, int)) or gen.is_wire_float(x):
+                    k = gen.norm_key(x)
+                    t = "bool" if isinstance(x, bool) else "int" if isinstance(x, int) else "float"
+                    if keys.setdefault(k, t) != t:
+                        return True
+            return any(crosstype_duplicates(x) for x in doc["l"])
+        if "m" in doc:
+            return any(crosstype_duplicates(v) for _, v in doc["m"])
+    return False
+
+
+def null_in_nested_object(doc, depth=0):
+    if isinstance(doc, dict):
+        if "m" in doc:
+            return any((v is None and depth >= 1) or null_in_nested_object(v, depth + 1) for _, v in doc["m"])
+        if "l" in doc:
+            return any(null_in_nested_object(v, depth) for v in doc["l"])
+    return False
+
+
 def correspondence(case, impl, model):
     if "unbuildable" in impl:
         return None
+    if case["mode"] == "deser" and null_in_nested_object(case["doc"]) and offpath_inline(case["cls"]):
+        return None     # outside the model (sub-mapper availability is not modelled)
     if case["mode"] == "roundtrip" and not in_model_scope(case["cls"]):
         return None
     if "abstraction_mismatch" in impl:
